@@ -239,6 +239,7 @@ mutual
     | addx (k : Nat)               -- harness component: `X += k` on the first `X` found, no-op if absent
     | loop (n : Nat) (body : Nodes)   -- `Loop` with `LessThanN::iterations(n)`
     | scope (body : Nodes)            -- `Scope::new`
+    | ifx (k : Nat) (body : Nodes)    -- `Branch` on a harness condition: `X` present and `X ≥ k`
   inductive Nodes where
     | nil
     | cons (t : Node) (ts : Nodes)
@@ -249,6 +250,7 @@ child state each time the scope executes)? -/
 def Nodes.hasLoop : Nodes → Bool
   | .nil => false
   | .cons (.loop _ _) _ => true
+  | .cons (.ifx _ body) ts => body.hasLoop || ts.hasLoop   -- `Branch::init` initialises its bodies
   | .cons _ ts => ts.hasLoop
 
 inductive TrigSpec where
@@ -396,6 +398,10 @@ mutual
       match execs f body { s with env := { iters := if body.hasLoop then some 0 else none, x := none } :: s.env } with
       | .ok s' => .ok { s' with env := s'.env.tail }
       | .error e => .error e
+    | f + 1, .ifx k body, s =>
+      match getX s.env with
+      | some v => if k ≤ v then execs f body s else .ok s
+      | none => .ok s
   def execs : Nat → Nodes → St → Except Fail St
     | 0, _, _ => .error .timeout
     | _ + 1, .nil, s => .ok s
@@ -493,6 +499,8 @@ mutual
     | .list (.atom "loop" :: n :: body) => do
         let n ← nat? n; let b ← Nodes.parseList? body; pure (.loop n b)
     | .list (.atom "scope" :: body) => (Nodes.parseList? body).map .scope
+    | .list (.atom "ifx" :: k :: body) => do
+        let k ← nat? k; let b ← Nodes.parseList? body; pure (.ifx k b)
     | _ => none
   def Nodes.parseList? : List Sexp → Option Nodes
     | [] => some .nil
